@@ -324,6 +324,19 @@ func hyR6ReadAmmoFlow(g *hyGen, p *packages.Package) string {
 		if ds, ok := fd.Body.List[i].(*ast.DeferStmt); ok {
 			if fl, ok := ds.Call.Fun.(*ast.FuncLit); ok {
 				for j, st := range fl.Body.List {
+					// `if cerr := file.Close(); cerr != nil { … }`
+					if ifs, ok := st.(*ast.IfStmt); ok && ifs.Init != nil {
+						if as, ok := ifs.Init.(*ast.AssignStmt); ok && len(as.Rhs) == 1 && len(as.Lhs) == 1 {
+							if c, ok := as.Rhs[0].(*ast.CallExpr); ok && strings.HasSuffix(hyCalleeName(p, c), ".Close") {
+								res := "other"
+								if hyR6IsErrTest(p, ifs.Cond, hyObj(p, as.Lhs[0])) && namedErr != nil && hyR6AssignsErrEverywhere(p, ifs.Body.List, namedErr) {
+									res = "deferred-refuses"
+								}
+								outcome["Close"] = res
+							}
+						}
+						continue
+					}
 					as, ok := st.(*ast.AssignStmt)
 					if !ok || len(as.Rhs) != 1 || len(as.Lhs) != 1 {
 						continue
